@@ -273,7 +273,7 @@ static int vf_visit(void * e, void * p)
         el->poisoned = 1;
         el->n.n = el->n.p = NULL;
     }
-    return vf_visit_n++ == vf_visit_stop_at ? 7 : 0;
+    return vf_visit_n++ == vf_visit_stop_at ? VF_STOPVAL(vf_visit_stop_at) : 0;
 }
 static int vf_clr_n;
 static void vf_clr(void * e, void * p)
@@ -382,7 +382,7 @@ void h_b_multi(void)
                         vf_build(&a, ra, la, 0);
                         vf_visit_list = &a; vf_visit_n = 0; vf_visit_stop_at = stop;
                         res = cstl_dlist_foreach(&a, vf_visit, NULL, dir ? CSTL_DLIST_FOREACH_DIR_REV : CSTL_DLIST_FOREACH_DIR_FWD);
-                        VF_ASSERT(res == (stop < la ? 7 : 0), "foreach: returns the first non-zero visit result (0 if none)");
+                        VF_ASSERT(res == (stop < la ? VF_STOPVAL(stop) : 0), "foreach: returns the first non-zero visit result (0 if none)");
                         VF_ASSERT(vf_visit_n == expect_n, "foreach: stops at the first non-zero result");
                         for (k = 0; k < expect_n; k++) VF_ASSERT(vf_visit_log[k] == (dir ? ra[la - 1 - k] : ra[k]), "foreach: visits in sequence order");
                         if (vf_visit_erase) {
